@@ -327,7 +327,7 @@ func (it *Interp) abstractFindAVP(g *G, appid *Term, code Value, vendor *Term, w
 		if !nm.IsConc() {
 			it.unsupported("abstract dictionary: lookup by symbolic name")
 		}
-		return it.abstractFindByName(g, appid, nm.conc)
+		return it.abstractFindByName(g, appid, nm.conc, vendor)
 	}
 	ct, ok := civ.val.(*Term)
 	if !ok {
@@ -498,11 +498,28 @@ func (it *Interp) abstractFindCommand(g *G, appid, code *Term) Value {
 
 // abstractFindByName models a lookup by AVP name: the dictionary may or may not define the name; if it
 // does, the definition has a symbolic code, vendor id and type, consistent with every other lookup.
-func (it *Interp) abstractFindByName(g *G, appid *Term, name string) Value {
+func (it *Interp) abstractFindByName(g *G, appid *Term, name string, filter *Term) Value {
 	ts := it.ts
-	for _, l := range it.dictLookups {
+	// the vendor filter of the lookup: the any-vendor wildcard matches every definition, any other value
+	// only a definition with exactly that vendor id (as the real index does)
+	answer := func(l *dictLookup) Value {
+		undefined := ts.Eq(l.ty, ts.Const(8, 255))
+		if filter != nil && !ts.Eq(filter, ts.Const(32, undefinedVendor)).IsTrue() {
+			miss := ts.And(ts.Not(ts.Eq(filter, ts.Const(32, undefinedVendor))), ts.Not(ts.Eq(filter, l.vendor)))
+			undefined = ts.Or(undefined, miss)
+		}
+		if it.decide(undefined, "dictionary: name undefined (or defined under another vendor)") {
+			return Tuple{(*Ptr)(nil), it.newError("Could not find AVP")}
+		}
+		if l.res == nil {
+			l.res = &Ptr{obj: it.mkAbstractAVP(l.app, l.code, l.vendor, l.ty, name)}
+		}
+		return Tuple{l.res, (*Iface)(nil)}
+	}
+	for i := range it.dictLookups {
+		l := &it.dictLookups[i]
 		if l.name == name && ts.Eq(l.app, appid).IsTrue() {
-			return l.res
+			return answer(l)
 		}
 	}
 	ty := it.freshInput("dict.type", "dicttype", 8)
@@ -535,16 +552,8 @@ func (it *Interp) abstractFindByName(g *G, appid *Term, name string) Value {
 			// real dictionaries; no constraint
 		}
 	}
-	lk := dictLookup{name: name, app: appid, code: cv, vendor: vv, ty: ty}
-	var res Value
-	if it.decide(ts.Eq(ty, ts.Const(8, 255)), "dictionary: name undefined") {
-		res = Tuple{(*Ptr)(nil), it.newError("Could not find AVP")}
-	} else {
-		res = Tuple{&Ptr{obj: it.mkAbstractAVP(appid, cv, vv, ty, name)}, (*Iface)(nil)}
-	}
-	lk.res = res
-	it.dictLookups = append(it.dictLookups, lk)
-	return res
+	it.dictLookups = append(it.dictLookups, dictLookup{name: name, app: appid, code: cv, vendor: vv, ty: ty})
+	return answer(&it.dictLookups[len(it.dictLookups)-1])
 }
 
 // dictModel extracts the concrete dictionary table of a counterexample.
